@@ -605,6 +605,10 @@ def corpus_sets():
     l1 = {"title": None, "cmds": [{"variant": "Dev", "name": None, "doc": "A device", "args": [arg("index", "opt", "str", long=True, short=True, optional=True), arg("force", "flag", "bool", long=True)], "sub": {"optional": False, "enum": l2, "field": "cmd"}},
                                   unit("Show", doc="Top show")]}
     sets.append({"kind": "enum", "enum": l1})
+    # 22: char and bool as positionals and as options (a bool with a short / long name is a FLAG; only a positional bool is converted)
+    sets.append({"kind": "enum", "enum": {"title": None, "cmds": [
+        {"variant": "Sep", "name": None, "doc": "Separator", "sub": None, "args": [arg("ch", "pos", "char"), arg("alt", "opt", "char", long=True, short=True, optional=True)]},
+        {"variant": "Led", "name": None, "doc": "Led", "sub": None, "args": [arg("id", "pos", "u8"), arg("on", "pos", "bool"), arg("blink", "pos", "bool", optional=True)]}]}})
     # 19: signed positionals of every width (a negative value can only be given after `--`): both ends of every range
     sets.append({"kind": "enum", "enum": {"title": None, "cmds": [
         {"variant": "Move", "name": None, "doc": "Move", "sub": None, "args": [arg("step", "pos", "i8"), arg("fine", "pos", "i16", optional=True), arg("fast", "flag", "bool", long=True)]},
@@ -865,6 +869,51 @@ def signed_boundary_lines(rng, c, prefix=()):
                 toks.append(sample_value(rng, b["ty"], True))
             toks.append(("-0" if v == 0 and str(v) == "0" and rng.randrange(2) else str(v)))
             lines.append(" ".join(q(t) for t in toks))
+    return lines
+
+EDGE_VALUES = {
+    "bool": ["true", "false", "1", "True", "TRUE", "yes", "", "enabled", "falsee", "tru", "\u043d\u0435\u0442", "t" * 40],
+    "char": ["x", "\u00e9", "\U0001f600", "", "xy", "\u00e9\u00e9", " ", "-", "\U0001f600\U0001f600", "a" * 40],
+    "str": ["", " ", "a b", "-", "\u00e9\u20ac", "x" * 60],
+    "u8": ["0", "255", "256", "-1", "+5", "007", "", "x", "1e2", "+", "9" * 30, "\u0663", "1 ", " 1"],
+}
+
+def value_edge_lines(rng, c, prefix=()):
+    """for every value-taking argument of command c: lines that give it each edge value of its type (empty, one character too many, far too
+    long, other letter case, multi-byte, sign only ...) while the other required arguments get ordinary values. A conversion written
+    for the field type (FromArgument) meets its corner cases only here."""
+    args = [a for a in c["args"] if a["kind"] != "flag"]
+    pos = [a for a in c["args"] if a["kind"] == "pos"]
+    lines = []
+    for target in args:
+        vals = EDGE_VALUES.get(target["ty"])
+        if vals is None:
+            if target["ty"] in INT_TYS:
+                lo, hi = int_range(target["ty"])
+                vals = [str(hi), str(hi + 1), "", "+", "x", "+" + str(hi), "0" * 40 + "1", "9" * 45]
+            else:
+                continue
+        for v in vals:
+            toks = list(prefix) + [cmd_name(c)]
+            ok = True
+            for a in c["args"]:
+                if a["kind"] == "flag":
+                    continue
+                val = v if a is target else sample_value(rng, a["ty"], True)
+                if a["kind"] == "opt":
+                    if a is target or not (a["optional"] or a.get("default")):
+                        if val.startswith("-") and len(val) > 0:
+                            ok = ok and a is not target      # a value with a leading dash cannot follow an option name
+                            val = "v" if a is not target else val
+                        toks += [("--" + arg_long(a)) if arg_long(a) else ("-" + arg_short(a)), val]
+                else:
+                    if a is target or not (a["optional"] or a.get("default")) or pos.index(a) < (pos.index(target) if target in pos else -1):
+                        if val.startswith("-"):
+                            ok = ok and a is not target
+                            val = "v" if a is not target else val
+                        toks.append(val)
+            if ok:
+                lines.append(" ".join(q(t) for t in toks))
     return lines
 
 def set_enums(s):
